@@ -29,7 +29,11 @@
                   history the root is a function of (parent root, ordered writes).
     known finding 1: the only deviations are panics in runs whose configuration
                   has both prefix and memTree, at an operation that follows a
-                  MemSet not committed by then. *)
+                  MemSet not committed by then.
+    known finding 2: ... or panics of a MemSet+Commit / Commit in a prune + memTree
+                  run at a block height that is not above all earlier ones.
+    known finding 3: ... or, in direct prune runs, a first deviation at a successful
+                  update with no writes (it returns another root). *)
 From Coq Require Import List ZArith NArith Bool FMapPositive.
 From C33 Require Import Lib.Harness C01.Keys C01.Model C01.Store C02.Model.
 (* the wire types of C01's harness (KV, SL, SN) and its string table are reused *)
@@ -54,7 +58,8 @@ Inductive runobs :=
     32 pruneHeight = 1000000 (else 0), 64 tkCloseCacheLen = 7 (else 0) *)
 Inductive run := RUN (bits : N) (direct : bool) (o : runobs).
 
-Inductive case := CASE (tab : list bytes) (ops : list uop) (runs : list run).
+(* [ranks]: position of every root class (1, 2, ...) in the byte order of the root hashes *)
+Inductive case := CASE (tab : list bytes) (ranks : list N) (ops : list uop) (runs : list run).
 
 Definition cfg_of_bits (b : N) : cfg :=
   new_cfg (mk_cfg (N.testbit b 0) (N.testbit b 1) (N.testbit b 2)
@@ -98,7 +103,7 @@ Definition of_res (st : rstate) (x : res (root * store)) : rstate :=
   | _ => emit st (rs_store st) (code_of x) None []
   end.
 
-Definition run_op (c : cfg) (direct : bool) (tab : N -> bytes) (st : rstate) (o : uop) : rstate :=
+Definition run_op (ord : hash -> N) (c : cfg) (direct : bool) (tab : N -> bytes) (st : rstate) (o : uop) : rstate :=
   if rs_stop st then st else
   let s := rs_store st in
   match o with
@@ -107,12 +112,12 @@ Definition run_op (c : cfg) (direct : bool) (tab : N -> bytes) (st : rstate) (o 
       | None => skip st
       | Some r =>
           let kv := map (fun x => match x with KV k v => (tab k, tab v) end) kvs in
-          if now && direct then of_res st (st_set c s r bh kv)
+          if now && direct then of_res st (st_set ord c s r bh kv)
           else
             match st_memset c s r bh kv with
             | Ok (r1, s1) =>
                 if now then
-                  match st_commit c s1 r1 with
+                  match st_commit ord c s1 r1 with
                   | Ok (r2, s2) => if root_eqb r1 r2 then emit st s2 0%N (Some r2) []
                                    else emit st s2 4%N None []
                   | x => emit st s1 (code_of x) None []
@@ -124,7 +129,7 @@ Definition run_op (c : cfg) (direct : bool) (tab : N -> bytes) (st : rstate) (o 
   | UCommit n =>
       match root_ref (rs_roots st) n with
       | None => skip st
-      | Some r => of_res st (st_commit c s r)
+      | Some r => of_res st (st_commit ord c s r)
       end
   | URollback n =>
       match root_ref (rs_roots st) n with
@@ -142,9 +147,6 @@ Definition run_op (c : cfg) (direct : bool) (tab : N -> bytes) (st : rstate) (o 
           end
       end
   end.
-
-Definition run_model (c : cfg) (direct : bool) (tab : N -> bytes) (ops : list uop) : list mobs :=
-  rs_out (fold_left (run_op c direct tab) ops (mk_rs empty_store [] false [])).
 
 (** ---- class numbering over the symbolic roots ---- *)
 Fixpoint index_of (h : hash) (seen : list hash) (i : N) : option N :=
@@ -170,20 +172,38 @@ Definition obs_eqb (a b : obs) (tabf : N -> bytes) : bool :=
                          (map (fun x => match x with SL k => SLeaf (tabf k) | SN k h s => SNode (tabf k) h s end) s2)
   end.
 
-(** compare one run's observations with the model's, threading the numbering *)
-Fixpoint agree_run (tabf : N -> bytes) (seen : list hash) (ms : list mobs) (os : list obs)
-  : bool * list hash :=
-  match ms, os with
-  | [], [] => (true, seen)
-  | m :: ms', OB code cls sh :: os' =>
-      let '(k, seen') := class_of seen (mo_root m) in
-      let ok := (code =? mo_code m)%N && (cls =? k)%N &&
-                list_eqb shape_eqb
-                  (map (fun x => match x with SL k => SLeaf (tabf k) | SN k h s => SNode (tabf k) h s end) sh)
-                  (mo_shape m) in
-      let '(b, seen'') := agree_run tabf seen' ms' os' in
-      (ok && b, seen'')
-  | _, _ => (false, seen)
+(** the byte order of a symbolic root: through its class *)
+Definition ord_of (ranks : list N) (seen : list hash) (h : hash) : N :=
+  match index_of h seen 1%N with
+  | Some i => nth (N.to_nat i - 1) ranks 0%N
+  | None => 0%N
+  end.
+
+Definition rs_shapes (tabf : N -> bytes) (sh : list ishape) : list shape_item :=
+  map (fun x => match x with SL k => SLeaf (tabf k) | SN k h s => SNode (tabf k) h s end) sh.
+
+(** run the model operation by operation next to one run's observations,
+    threading the numbering of roots *)
+Fixpoint agree_ops (c : cfg) (direct : bool) (tabf : N -> bytes) (ranks : list N)
+  (st : rstate) (seen : list hash) (ops : list uop) (os : list obs) : bool * list hash :=
+  match os with
+  | [] => (match ops with [] => true | _ => rs_stop st end, seen)
+  | OB code cls sh :: os' =>
+      match ops with
+      | [] => (false, seen)
+      | o :: ops' =>
+          if rs_stop st then (false, seen) else
+          let st' := run_op (ord_of ranks seen) c direct tabf st o in
+          match rev (rs_out st') with
+          | [] => (false, seen)
+          | m :: _ =>
+              let '(k, seen') := class_of seen (mo_root m) in
+              let ok := (code =? mo_code m)%N && (cls =? k)%N &&
+                        list_eqb shape_eqb (rs_shapes tabf sh) (mo_shape m) in
+              let '(b, seen'') := agree_ops c direct tabf ranks st' seen' ops' os' in
+              (ok && b, seen'')
+          end
+      end
   end.
 
 Definition expand (ref : list obs) (o : runobs) : list obs :=
@@ -199,14 +219,14 @@ Definition ref_obs (runs : list run) : list obs :=
   | _ => []
   end.
 
-Fixpoint agree_runs (tabf : N -> bytes) (ops : list uop) (ref : list obs) (seen : list hash)
-  (runs : list run) : bool :=
+Fixpoint agree_runs (tabf : N -> bytes) (ranks : list N) (ops : list uop) (ref : list obs)
+  (seen : list hash) (runs : list run) : bool :=
   match runs with
   | [] => true
   | RUN bits direct o :: tl =>
-      let ms := run_model (cfg_of_bits bits) direct tabf ops in
-      let '(b, seen') := agree_run tabf seen ms (expand ref o) in
-      b && agree_runs tabf ops ref seen' tl
+      let '(b, seen') := agree_ops (cfg_of_bits bits) direct tabf ranks
+                                   (mk_rs empty_store [] false []) seen ops (expand ref o) in
+      b && agree_runs tabf ranks ops ref seen' tl
   end.
 
 (** ---- the specification, on the implementation's outputs ---- *)
@@ -295,16 +315,85 @@ Definition kf1_run (tabf : N -> bytes) (ops : list uop) (ref : list obs) (r : ru
   | _ => false
   end.
 
+(** ---- known finding 2: panic inside Commit's prune bookkeeping ----
+    prune + memTree; the failing operation is a MemSet+Commit or a Commit at a block
+    height that is not above every height used before (DelLeafCountKV runs between
+    Tree.Hash, which filled memTree, and the node saves). *)
+Definition op_height (ops : list uop) (o : uop) : option Z :=
+  match o with
+  | UUpd _ bh _ _ => Some bh
+  | UCommit n => match nth_error ops (N.to_nat n - 1) with
+                 | Some (UUpd _ bh _ _) => Some bh
+                 | _ => None
+                 end
+  | _ => None
+  end.
+
+Definition repeated_height (ops : list uop) (i : nat) : bool :=
+  match nth_error ops (i - 1) with
+  | Some o =>
+      match op_height ops o with
+      | Some bh => existsb (fun o' => match o' with UUpd _ bh' _ _ => bh <=? bh' | _ => false end)
+                           (firstn (i - 1) ops)
+      | None => false
+      end
+  | None => false
+  end.
+
+Definition kf2_run (ops : list uop) (ref : list obs) (r : run) : bool :=
+  match r with
+  | RUN bits direct (RCut i (OB 3%N 0%N [])) =>
+      let c := cfg_of_bits bits in
+      c_prune c && c_memtree c && (N.to_nat i <=? length ref)%nat &&
+      match nth_error ops (N.to_nat i - 1) with
+      | Some (UUpd _ _ (_ :: _) true) => negb direct
+      | Some (UCommit _) => true
+      | _ => false
+      end && repeated_height ops (N.to_nat i)
+  | _ => false
+  end.
+
+(** ---- known finding 3: an update with no writes returns another root ----
+    prune, direct Set: the first observation that differs from the first run is a
+    successful update with an empty write list (its root object came from the ARC
+    cache with a hash slice that aliases a LevelDB iterator buffer). *)
+Fixpoint first_diff (tabf : N -> bytes) (a b : list obs) (i : nat) : option nat :=
+  match a, b with
+  | [], [] => None
+  | x :: a', y :: b' => if obs_eqb x y tabf then first_diff tabf a' b' (S i) else Some i
+  | _, _ => Some i
+  end.
+
+Definition kf3_run (tabf : N -> bytes) (ops : list uop) (ref : list obs) (r : run) : bool :=
+  match r with
+  | RUN bits true (RFull l) =>
+      c_prune (cfg_of_bits bits) && (length l =? length ref)%nat &&
+      match first_diff tabf l ref 1 with
+      | Some i => match nth_error ops (i - 1), nth_error l (i - 1) with
+                  | Some (UUpd _ _ [] true), Some (OB 0%N _ []) => true
+                  | _, _ => false
+                  end
+      | None => false
+      end
+  | _ => false
+  end.
+
 Definition check_case (c : case) : verdict :=
   match c with
-  | CASE tab ops runs =>
+  | CASE tab ranks ops runs =>
       let m := build_tab tab 0%N (PositiveMap.empty bytes) in
       let tabf := rs m in
       let ref := ref_obs runs in
       let first_plain := match runs with RUN 0%N true _ :: _ => true | _ => false end in
-      let ma := first_plain && agree_runs tabf ops ref [] runs in
+      let ma := first_plain && agree_runs tabf ranks ops ref [] runs in
       let sref := first_plain && spec_ref tabf ops ref in
       let sp := sref && forallb (run_same tabf ref) runs in
-      let kf := if negb sp && sref && forallb (kf1_run tabf ops ref) runs then 1%N else 0%N in
+      let k1 := kf1_run tabf ops ref in
+      let k2 := fun r => k1 r || kf2_run ops ref r in
+      let k3 := fun r => k2 r || kf3_run tabf ops ref r in
+      let kf := if sp || negb sref then 0%N
+                else if forallb k1 runs then 1%N
+                else if forallb k2 runs then 2%N
+                else if forallb k3 runs then 3%N else 0%N in
       (ma, sp, kf)
   end.
